@@ -618,6 +618,10 @@ def step (E : Ext) (cfg : Config) (M : Matcher) (ans : Request → Option Resp) 
       broker := cleanup (exec E cfg M ans now c b cmd).conn (exec E cfg M ans now c b cmd).broker }
   else exec E cfg M ans now c b cmd
 
+/-- The client goes away (EOF on the socket): `IOLoop` leaves through the same exit path. -/
+def disconnect (c : Conn) (b : Broker) : Conn × Broker :=
+  if c.closed then (c, b) else ({ c with closed := true }, cleanup c b)
+
 /-! ## histories -/
 
 /-- An event on the timeline of one connection: a command (with the clock reading and the auth
